@@ -21,10 +21,11 @@ ASSUME = [
     "concurrent bulks: the model's atomic step is the writer's locked unit (docs block, then its meta block); "
     "concurrent acknowledged bulks are consecutive bulk steps in lock order (theorem C01_locked_units_sequential); "
     "crashes in the middle of a concurrent group are not generated",
-    "I/O faults: the theorems assume fault_free histories (no write fails with EFBIG/ENOSPC/EIO); histories WITH a "
-    "failed write are executed by the same model (HFault mirrors the current FileWriter/ActiveWriter: offset stays "
-    "advanced, partial bytes stay) and refute durability (Examples C01_fault_refuted_docs_write/_meta_write) - a "
-    "genuine defect of the current code, reported under fingerprint fault-ingest",
+    "I/O faults: HFault = one write of the unit fails part-way, the unit is rolled back (commit ce3aaa8: both files "
+    "truncated, docs first, offsets restored), no ack; HFaultCrash = crash/power loss inside the failed unit or its "
+    "rollback, with the meta block incomplete (crash_cut_ok; a failed FSYNC after a complete meta write followed by "
+    "a crash between the two truncations is excluded - Example C01_rollback_order_hazard); the write path before "
+    "ce3aaa8 is kept as run_f0 with two refutation examples",
     "store = FracManager level (fracmanager.Load / Append / Searcher / Fetcher) in a child process; GrpcV1.Bulk not driven",
 ]
 RULE = ("witness family [start; bulk; crash inside next bulk at operation k torn at t; start; bulk (new or retry); start ...] "
@@ -37,7 +38,10 @@ RULE = ("witness family [start; bulk; crash inside next bulk at operation k torn
         "directly), then power loss or kill, start, fetch of every acknowledged document; fault stream: one Append attempt under RLIMIT_FSIZE so that the docs or the meta "
         "write fails after cut bytes (0, 1, 32, 33, 34, len-1, random) with a real EFBIG; class fault-restart: observe, "
         "kill, start (must be: not acknowledged, acked bulks intact, failed bulk all-or-nothing); class fault-ingest: "
-        "further acknowledged bulks (or the retry) before the start; on every real .meta file "
+        "further acknowledged bulks (or the retry) before the start; class fault-crash: the process dies after any "
+        "prefix of the failed unit's file operations (torn write, before the rollback, between its two truncations) "
+        "with power-loss cuts, then start and further bulks; WaitIdle is called after every failed append (a hang is "
+        "reported after 12 s); on every real .meta file "
         "each block's Ext2 must equal the sum of the preceding Ext1 (ext_chain_ok). non-trivial = a crash, then an acknowledged bulk, then a start; "
         "distinct by history")
 
